@@ -51,6 +51,7 @@ type caseT struct {
 	NbTarget  string     `json:"nbclient_target,omitempty"` // nbhttp | std
 	NbTimeout int        `json:"nbclient_timeout_s,omitempty"`
 	NbConns   int        `json:"nbclient_max_conns_per_host,omitempty"`
+	NbTLS13   bool       `json:"nbclient_tls13,omitempty"`
 	Seed      int64      `json:"seed"`
 }
 
@@ -145,13 +146,21 @@ func genCase(r *h.Run, idx int) caseT {
 		c.CliKill = rng.Intn(3) == 0
 		c.NbTimeout = []int{6, 6, 6, 0}[rng.Intn(4)]
 		c.NbConns = 1 + rng.Intn(4)
+		// with TLS 1.3 nbhttp's https client does not complete a single exchange in
+		// this tree ("bad record MAC", see the final report): most TLS cases pin the
+		// client to TLS 1.2 so that the callbacks see real responses
+		c.NbTLS13 = c.Cell.TLS && rng.Intn(4) == 0
+		if c.NbTLS13 && c.NbTimeout == 0 {
+			// its blocking handshake can wait for ever; without a Timeout nothing ends it
+			c.NbTimeout = 6
+		}
 	}
 	return c
 }
 
 var progress int64
 
-var capLog = &h.CapLogger{}
+var capLog = &dbgLogger{}
 
 func prog() int64 { return atomic.LoadInt64(&progress) }
 func bump()       { atomic.AddInt64(&progress, 1) }
@@ -203,7 +212,10 @@ func (e *env) violate(sig, detail string) {
 		detail = "[" + sig + "] " + detail
 		sig = "c10:chunked-multiwrite:exchange-corrupted"
 	}
-	e.r.Violate(sig, detail+fmt.Sprintf("\ncell %s, case kind %s (the case config replays the workload; the schedule itself is not reproducible)", e.c.Cell, e.c.Kind), e.c)
+	if len(detail) > 3200 {
+		detail = detail[:3200] + "…"
+	}
+	e.r.Violate(sig, detail+fmt.Sprintf("\ncell %s, case kind %s (the case config replays the workload; the schedule itself is not reproducible)", e.c.Cell, e.c.Kind)+capLog.recent(), e.c)
 }
 
 func (e *env) register(nc net.Conn) {
@@ -259,6 +271,7 @@ func installDelays(c caseT) func() {
 func runCase(r *h.Run, c caseT) {
 	r.Eval(1)
 	e := &env{r: r, c: c, log: e2e.NewLog(20000), cls: cellClass(c.Cell)}
+	capLog.reset()
 	undo := installDelays(c)
 	defer undo()
 	switch c.Kind {
